@@ -146,7 +146,36 @@ fn check_string(text: &[u8], job: &str, res: &mut ShardResult) {
                     }
                 }
             }
-            if !ok {
+            // Inside the plain core of the grammar the result is fully determined.
+            let plain = vcore::refdepfile::recognise_plain(hay);
+            let got: Vec<String> = entries.iter().flat_map(|(_, d)| d.iter().cloned()).collect();
+            let plain_mismatch = match &plain {
+                Some(exp) => {
+                    res.count("strings_in_plain_core", 1);
+                    let mut targets_seen = std::collections::BTreeSet::new();
+                    // (a repeated target is merged into its first entry, which
+                    // reorders prerequisites across entries; compare as multisets then)
+                    let repeated = entries.len() != exp.len() || !entries.iter().all(|(t, _)| targets_seen.insert(t.clone()));
+                    let flat: Vec<String> = exp.iter().flatten().cloned().collect();
+                    if repeated {
+                        let mut a = flat.clone();
+                        let mut b = got.clone();
+                        a.sort();
+                        b.sort();
+                        a != b
+                    } else {
+                        flat != got
+                    }
+                }
+                None => false,
+            };
+            if plain_mismatch {
+                res.violation(
+                    "plain-depfile-misread",
+                    || format!("depfile {:?} parsed to {:?}, expected prerequisites {:?}", String::from_utf8_lossy(text), entries, plain),
+                    replay,
+                );
+            } else if !ok {
                 res.violation(
                     "parsed-words-not-from-input",
                     || format!("depfile {:?} parsed to {:?}", String::from_utf8_lossy(text), entries),
@@ -158,6 +187,13 @@ fn check_string(text: &[u8], job: &str, res: &mut ShardResult) {
                 }
                 res.outcome(if entries.is_empty() { "ok-empty" } else { "ok-entries" });
             }
+        }
+        Ok(Err(msg)) if vcore::refdepfile::recognise_plain(&text[..text.iter().position(|&c| c == 0).unwrap_or(text.len())]).is_some() => {
+            res.violation(
+                "plain-depfile-rejected",
+                || format!("well-formed depfile {:?} rejected: {}", String::from_utf8_lossy(text), msg),
+                replay,
+            );
         }
         Ok(Err(msg)) => {
             if !msg.starts_with("parse error: ") || !msg.contains("depfile:") || !msg.ends_with("^\n") {
